@@ -1,8 +1,13 @@
 """Contracts for chartparse/track.py: build_events_from_data (one instance per event type; the
 nested builders are verified inline, their loops carry the sidecar invariants) and the line
 dispatcher parse_data_from_chart_lines (one instance per kind tuple)."""
-from pyvc.contract import Contract, LoopSpec, Conc
-from pyvc.values import INT, SeqS
+import ast
+
+from pyvc.contract import Contract, LoopSpec, Conc, Ghost, MapOf
+from pyvc.values import INT, STR, SeqS
+from pyvc import values as V
+from pyvc.objects import PyMap
+from pyvc.state import BindingLost
 from .c_sync import _cls, BIG
 from .c_events import KINDS
 
@@ -10,6 +15,10 @@ Q = "build_events_from_data.<locals>."
 
 
 def register(reg, S):
+    register_builders(reg, S)
+
+
+def register_builders(reg, S):
     key = "chartparse.track:build_events_from_data"
     # ------------------------------------------------------------------ tempo map
     ev = "events[k]"
@@ -98,3 +107,108 @@ def register(reg, S):
             ])},
             locals={"events": SeqS(S[ename])},
             props=["C01", "C11", "C12", "C15"]))
+
+
+# ---------------------------------------------------------------------- ParsedDataMap
+def _model_parsed_data_map(eng, cls, args, kwargs, st):
+    """ParsedDataMap is modelled as collections.defaultdict(list) keyed by the kind classes, after
+    a syntactic check of its two methods in the *current* source (otherwise: binding lost)."""
+    node = eng.idx.classes.get("chartparse.track:ParsedDataMap")
+    ok = False
+    if node is not None:
+        meths = {n.name: n for n in node.body if isinstance(n, ast.FunctionDef)}
+        if set(meths) == {"__init__", "__getitem__"}:
+            init = [s for s in meths["__init__"].body if not (isinstance(s, ast.Expr) and isinstance(s.value, ast.Constant))]
+            gi = [s for s in meths["__getitem__"].body if not (isinstance(s, ast.Expr) and isinstance(s.value, ast.Constant))]
+            ok = (len(init) == 1 and isinstance(init[0], (ast.AnnAssign, ast.Assign))
+                  and ast.unparse(init[0].value) == "collections.defaultdict(list)"
+                  and ast.unparse(init[0].target if isinstance(init[0], ast.AnnAssign) else init[0].targets[0]) == "self._dict"
+                  and len(gi) == 1 and isinstance(gi[0], ast.Return)
+                  and ast.unparse(gi[0].value).endswith("self._dict.__getitem__(k))")
+                  and not any(isinstance(n, ast.Assign) and not isinstance(n, ast.FunctionDef) for n in node.body))
+    if not ok or args or kwargs:
+        raise BindingLost("ParsedDataMap no longer matches its model (defaultdict(list) behind __getitem__)")
+    eng.ctx.assumptions.add("ParsedDataMap modelled as a per-instance collections.defaultdict(list) (its two methods are matched syntactically every run)")
+    return V.vconc(PyMap(default=lambda k: V.vseq_empty(eng.shape_of_class(k)), kind="ParsedDataMap"))
+
+
+SECTIONS = {
+    # label: (kind class paths in the order the code passes them, data shape names)
+    "sync": (["chartparse.sync:BPMEvent.ParsedData", "chartparse.sync:TimeSignatureEvent.ParsedData",
+              "chartparse.sync:AnchorEvent.ParsedData"], ["BPMData", "TSData", "AnchorData"]),
+    "instrument": (["chartparse.instrument:NoteEvent.ParsedData", "chartparse.instrument:StarPowerEvent.ParsedData",
+                    "chartparse.instrument:TrackEvent.ParsedData"], ["NoteData", "StarPowerDataLine", "TrackData"]),
+    "globalevents": (["chartparse.globalevents:LyricEvent.ParsedData", "chartparse.globalevents:SectionEvent.ParsedData",
+                      "chartparse.globalevents:TextEvent.ParsedData"], ["LyricData", "SectionData", "TextData"]),
+}
+
+
+def decoder_contract(reg, path):
+    """The from_chart_line contract serving kind class `path`."""
+    for c in reg.all():
+        if c.key.endswith(".from_chart_line") and "cls" in c.params and c.params["cls"].label == path.split(":")[1]:
+            return c
+    raise KeyError(path)
+
+
+def first_is(paths, j, line):
+    """`line` is claimed by kind j: it matches kind j and no earlier kind."""
+    parts = [f"rxm('{paths[j]}', {line})"] + [f"not rxm('{paths[i]}', {line})" for i in range(j)]
+    return " and ".join(parts)
+
+
+def dispatcher_clauses(reg, paths, lists, upto, src=lambda j: f"g_src{j}"):
+    """Filter-map characterisation of the per-kind lists over lines[0:upto]."""
+    import re as _re
+    out = []
+    for j, p in enumerate(paths):
+        L, G = lists[j], src(j)
+        dec = decoder_contract(reg, p)
+        mirror = " and ".join(
+            "(" + _re.sub(r"(?<![\w.])line(?![\w])", f"lines[{G}[k]]", _re.sub(r"(?<![\w.])result(?![\w])", f"{L}[k]", t)) + ")"
+            for _, t in dec.ensures)
+        out += [
+            (f"kind{j}-length", f"len({L}) == len({G})"),
+            (f"kind{j}-sources-increasing", f"forall(0, len({G}), lambda k: 0 <= {G}[k] and {G}[k] < {upto} and implies(k + 1 < len({G}), {G}[k] < {G}[k + 1]))"),
+            (f"kind{j}-sources-claimed-by-this-kind", f"forall(0, len({G}), lambda k: {first_is(paths, j, f'lines[{G}[k]]')})"),
+            (f"kind{j}-data-decoded-from-source-line", f"forall(0, len({G}), lambda k: {mirror})"),
+            # g_at[i] is the position of line i's datum in its kind's list (-1: unparsable)
+            (f"kind{j}-complete", f"forall(0, {upto}, lambda i: implies({first_is(paths, j, 'lines[i]')}, 0 <= g_at[i] and g_at[i] < len({G}) and {G}[g_at[i]] == i))"),
+        ]
+    out.append(("positions-length", f"len(g_at) == {upto}"))
+    out.append(("conservation", "_warnings + " + " + ".join(f"len({l})" for l in lists) + f" == {upto}"))
+    return out
+
+
+def register_dispatcher(reg, S):
+    from .c_sync import _cls
+    reg.modeled_classes["chartparse.track:ParsedDataMap"] = _model_parsed_data_map
+    for label, (paths, shapes) in SECTIONS.items():
+        getters = [_cls(p) for p in paths]
+        keys = (lambda gs: (lambda: [g.get() for g in gs]))(getters)
+        types = Conc((lambda gs: (lambda: tuple(g.get() for g in gs)))(getters), label + "-kinds")
+        # the live tuple object must be identical across calls for contract lookup: cache it
+        cache = {}
+
+        def get_types(gs=getters, cache=cache):
+            if "t" not in cache:
+                cache["t"] = tuple(g.get() for g in gs)
+            return cache["t"]
+        types = Conc(get_types, label + "-kinds")
+        res_lists = [f"result[types[{j}]]" for j in range(3)]
+        inv_lists = [f"m[types[{j}]]" for j in range(3)]
+        ghost = ("g_at = append(g_at, len(g_src0) if t is types[0] else (len(g_src1) if t is types[1] else len(g_src2)))\n" +
+                 "\n".join(f"g_src{j} = append(g_src{j}, _it) if t is types[{j}] else g_src{j}" for j in range(3)))
+        reg.add(Contract(
+            "chartparse.track:parse_data_from_chart_lines", inst=label,
+            params=dict(types=types, lines=SeqS(STR)),
+            result=MapOf(keys, [SeqS(S[n]) for n in shapes]),
+            ghost_results=dict({f"g_src{j}": SeqS(INT) for j in range(3)}, g_at=SeqS(INT)),
+            ensures=dispatcher_clauses(reg, paths, res_lists, "len(lines)"),
+            logs=None,
+            ghost_init="\n".join(f"g_src{j} = empty_ints()" for j in range(3)) + "\ng_at = empty_ints()",
+            ghosts=[Ghost("m[t].append(data)", ghost),
+                    Ghost("logger.warning(_unparsable_line_msg_tmpl.format(line, [t.__qualname__ for t in types]))", "g_at = append(g_at, -1)")],
+            loops={0: LoopSpec(invariants=dispatcher_clauses(reg, paths, inv_lists, "_it"))},
+            map_keys={"m": keys},
+            props=["C07", "C08", "C09", "C14", "C18"]))
